@@ -42,11 +42,24 @@ pub struct Style {
     pub blocks: bool,
 }
 
+/// File splitting: closed literal sub-values are moved to provider files and imported.
+#[derive(Clone, Debug, Default)]
+pub struct Exporter {
+    /// decisions consumed one per eligible literal: 0 = keep inline; k>0 = export (spelling k)
+    pub plan: Vec<u8>,
+    pub next: usize,
+    /// provider files written so far: (file name, source text, type as a `.zyi` text)
+    pub providers: Vec<(String, String, String)>,
+    /// how the i-th provider is imported at this occurrence
+    pub occurrences: usize,
+}
+
 pub struct Printer<'a> {
     pub prog: &'a Program,
     pub names: &'a Names,
     pub style: &'a Style,
     pub out: Vec<String>,
+    pub exporter: Option<Exporter>,
 }
 
 pub fn prelude(repo: &Path) -> String {
@@ -139,7 +152,7 @@ pub fn f64_literal(bits: u64) -> String {
 
 impl<'a> Printer<'a> {
     pub fn new(prog: &'a Program, names: &'a Names, style: &'a Style) -> Self {
-        Printer { prog, names, style, out: vec![] }
+        Printer { prog, names, style, out: vec![], exporter: None }
     }
     fn p(&mut self, s: &str) {
         self.out.push(s.to_string());
@@ -354,7 +367,62 @@ impl<'a> Printer<'a> {
         }
     }
 
+    /// Text and signature of a closed literal value that can live in a provider file (its type must be
+    /// synthesisable without the prelude: Int64, String, Char, Unit and products of them).
+    fn closed_literal(v: &Val, t: &VTy) -> Option<(String, String)> {
+        match (v, t) {
+            | (Val::Int(crate::hmodel::IntTy::I64, n), VTy::Int(crate::hmodel::IntTy::I64)) => Some((format!("{n}"), "(@(intrinsic(i64)))".into())),
+            | (Val::Str(s), VTy::Str) => Some((escape_str(s), "(@(intrinsic(string)))".into())),
+            | (Val::Char(c), VTy::Char) => Some((escape_char(*c), "(@(intrinsic(char)))".into())),
+            | (Val::Unit, VTy::Unit) => Some(("()".into(), "(@(intrinsic(unit)))".into())),
+            | (Val::Tuple(items), VTy::Prod(tys)) if items.len() == tys.len() => {
+                let parts: Option<Vec<(String, String)>> = items.iter().zip(tys.iter()).map(|(i, ty)| Self::closed_literal(i, ty)).collect();
+                let parts = parts?;
+                Some((
+                    format!("({})", parts.iter().map(|p| p.0.clone()).collect::<Vec<_>>().join(", ")),
+                    format!("({})", parts.iter().map(|p| p.1.clone()).collect::<Vec<_>>().join(" * ")),
+                ))
+            }
+            | _ => None,
+        }
+    }
+
     fn val_inner(&mut self, v: &Val, t: &VTy) {
+        if self.exporter.is_some() {
+            if let Some((text, sig)) = Self::closed_literal(v, t) {
+                let ex = self.exporter.as_mut().unwrap();
+                let decision = ex.plan.get(ex.next).copied().unwrap_or(0);
+                ex.next += 1;
+                if decision > 0 {
+                    // reuse an existing provider with the same text (imported several times) or add one
+                    let idx = match ex.providers.iter().position(|p| p.1 == text) {
+                        | Some(i) => i,
+                        | None => {
+                            ex.providers.push((format!("p{}.zy", ex.providers.len()), text, sig));
+                            ex.providers.len() - 1
+                        }
+                    };
+                    ex.occurrences += 1;
+                    let name = ex.providers[idx].0.clone();
+                    let spelled = match decision % 4 {
+                        | 1 => format!("\"{name}\""),
+                        | 2 => format!("\"./{name}\""),
+                        | 3 => format!("\"sub/../{name}\""),
+                        | _ => format!("\"{name}\""),
+                    };
+                    if decision % 8 >= 4 {
+                        for tok in ["(", "@", "[", "import", "(", &spelled, ")", "]", "_", ")"] {
+                            self.p(tok);
+                        }
+                    } else {
+                        for tok in ["(", "@", "(", "import", "(", &spelled, ")", ")", ")"] {
+                            self.p(tok);
+                        }
+                    }
+                    return;
+                }
+            }
+        }
         match v {
             | Val::Var(b) => {
                 let n = self.names.binder[*b as usize].clone();
